@@ -32,7 +32,7 @@ class QueueCheck:
 
     def floors(self, tier):
         return scaled_floors("C20", ["cancel.waiting", "cancel.inside", "cancelled_waiting", "exit.cancelled", "exit.raise", "exit.normal",
-                                     "join_returned.waited", "join_returned.immediate"], tier, 20)
+                                     "join_returned.waited", "join_returned.immediate", "exit.nested_outer", "exit.nested_inner"], tier, 20)
 
     def timeout(self, tier):
         return 900 if tier == "quick" else 7200
@@ -74,8 +74,9 @@ class C16World:
 class C16Check:
     cid = "C16"
     level = "exploration"
-    chunk = 40
-    rule = ("cases = (pool class in {TaskPool, SimpleTaskPool, two subclasses adding a public method and properties}) x terminal width (80 plus widths sampled from 10..400 at which a "
+    chunk = 20
+    rule = ("family 'server': a real TCP/Unix control server with 1-3 raw clients whose connects and handshakes interleave, each of which must then get help for sampled members; "
+            "family 'widths': cases = (pool class in {TaskPool, SimpleTaskPool, two subclasses adding a public method and properties}) x terminal width (80 plus widths sampled from 10..400 at which a "
             "plain argparse parser can format help); each case performs the JSON handshake on a real ControlSession, then asks '<command> -h' for EVERY public member enumerated by inspect, "
             "the top-level '-h', and several non-public names; non-trivial = every member help was checked; distinct = distinct (class, width)")
     assumptions = ["in-memory transport: real asyncio.StreamReader + recording writer at the ControlSession constructor boundary (socket transports are exercised by C19)",
@@ -87,16 +88,21 @@ class C16Check:
         self.mods = control.load_control(mods.load())
 
     def families(self, tier):
-        return [("widths", 160 if tier == "quick" else 4000)]
+        return [("widths", 160 if tier == "quick" else 4000), ("server", 60 if tier == "quick" else 1500)]
 
     def floors(self, tier):
-        return scaled_floors("C16", ["C16.member_help_ok", "C16.handshake_ok", "C16.private_rejected", "C16.command_set_exact"], tier, 25)
+        return scaled_floors("C16", ["C16.member_help_ok", "C16.handshake_ok", "C16.private_rejected", "C16.command_set_exact", "C16.socket_clients_ok",
+                                     "C19.handshake_while_other_pending"], tier, 25)
 
     def timeout(self, tier):
         return 900 if tier == "quick" else 7200
 
     def make_case(self, fam, seed, i, tier):
-        rng = random.Random(f"{seed}:C16:{i}")
+        rng = random.Random(f"{seed}:C16:{fam}:{i}")
+        if fam == "server":
+            from . import c16
+
+            return c16.gen_server_case(rng)
         classes = ["TaskPool", "SimpleTaskPool", "ExtTaskPool", "ExtSimpleTaskPool"]
         width = 80 if i % 8 < 2 else rng.choice([rng.randint(10, 40), rng.randint(20, 120), rng.randint(60, 400)])
         return {"cls": classes[i % 4], "width": width, "name": rng.choice([None, "p", "my-pool", "ünï"])}
@@ -104,12 +110,12 @@ class C16Check:
     def run_case(self, case, verbose=False):
         from . import c16
 
-        w = c16.World(self.mods, case)
+        w = c16.ServerWorld(self.mods, case) if case.get("server") else c16.World(self.mods, case)
         r = w.run()
         sit = r["sit"]
         out = {"viol": r["viol"], "sit": sit, "inconclusive": r["inconclusive"],
-               "nontrivial": sit.get("C16.member_help_ok", 0) > 5,
-               "sig": f"{case['cls']}:{case['width']}",
+               "nontrivial": sit.get("C16.member_help_ok", 0) > (0 if case.get("server") else 5),
+               "sig": f"{case['cls']}:{case.get('width')}:{case.get('order')}",
                "extra": {"members_checked": sit.get("C16.member_help_ok", 0)}}
         if r["viol"]:
             out["log_tail"] = w.log[-60:]
@@ -197,7 +203,7 @@ class C17Check:
         return [("random", 600 if tier == "quick" else 20000)]
 
     def floors(self, tier):
-        return scaled_floors("C17", ["C17.state_ok", "C17.reply_ok.ret", "C17.reply_ok.exc", "C17.options.2"], tier, 33)
+        return scaled_floors("C17", ["C17.state_ok", "C17.reply_ok.ret", "C17.reply_ok.exc", "C17.options.2", "C17.noise_lines"], tier, 33)
 
     def timeout(self, tier):
         return 900 if tier == "quick" else 7200
@@ -256,7 +262,7 @@ class C19Check:
     def floors(self, tier):
         return scaled_floors("C19", ["C19.handshakes", "C19.probe_ok", "C19.stopped", "C19.cli_ok", "C19.started.tcp", "C19.started.unix", "C19.disconnect.abort",
                                      "C19.disconnect.eof", "C19.disconnect.close", "C19.stop_with_clients.1", "C19.connect_after_stop_refused",
-                                     "C19.probe_ok_while_parked", "C19.handshake_while_other_pending"], tier, 18)
+                                     "C19.probe_ok_while_parked", "C19.handshake_while_other_pending", "C19.stale_socket_file"], tier, 18)
 
     def timeout(self, tier):
         return 900 if tier == "quick" else 7200
